@@ -62,6 +62,11 @@ func H_C20_total(n, K int) {
 		fw = &f.faultyWriter
 		err = Format(f, blocks)
 	}
+	// a failed call leaves nothing behind: the next call on a healthy writer gives
+	// the same bytes as before ("gives the same bytes every time")
+	w3 := &sliceWriter{}
+	check(Format(w3, blocks) == nil, "C20.healthy-error-after-fault")
+	check(vsame(w3.b, w1.b), "C20.deterministic-after-fault")
 	vunfreeze()
 	if fw.failed {
 		check(err == errWriter, "C20.returns-first-error")
@@ -349,5 +354,11 @@ func H_C20_fault(i, K int) {
 	} else {
 		check(err == nil, "C20.healthy-error")
 	}
+	// the next calls on healthy writers are complete and unaffected by the failure
+	w := &sliceWriter{}
+	check(Format(w, blocks) == nil, "C20.healthy-error-after-fault")
+	w2 := &sliceWriter{}
+	Format(w2, blocks)
+	check(vsame(w2.b, w.b), "C20.deterministic-after-fault")
 	vdigest(fw.b)
 }
